@@ -574,6 +574,8 @@ def bbox(f, as_slice=False):
     '''
     import mahotas._bbox
     n = f.max()
+    if f.min() < 0:
+        raise ValueError('mahotas.labeled.bbox: labels must be non-negative')
     output = np.empty( f.ndim * 2 * (n+1), np.intp)
     output = mahotas._bbox.bbox_labeled(f, output)
     output = output.reshape((n+1, 2*f.ndim))
